@@ -1,4 +1,7 @@
 (* C20: the facts that depend on the current source (Gen/Conn.v, Gen/Opens.v). *)
+(* every command of this file is bounded (the largest, one kernel evaluation of the
+   whole finite domain, takes ~12 s) *)
+Set Default Timeout 300.
 From Coq Require Import List Arith Bool String.
 Import ListNotations.
 From PG Require Import Lib.Str Model.Conn Gen.Conn Gen.Opens Proofs.C20Facts.
